@@ -23,6 +23,19 @@ def check(ctx):
     ctx.check(valids is not None, "C24.push-ready", push.site, "CAM.push.ready", found=tstr(push.ready), required="push ready iff not all slots are valid (a slot is free)")
     if valids is None:
         return
+    # storage size: one address and one data register per slot, one valid bit per slot (an Array subscripted past its end selects
+    # its last element, so a missing register silently aliases two slots)
+    arrays = []
+    for o in ex.objects.values():
+        ma = pmatch("Array(Q_l)", o.ctor)
+        if ma is not None and ma["l"][0] == "lc" and len(ma["l"][3]) == 1:
+            arrays.append((o, ma["l"][3][0][1]))
+    vo = ex.obj(valids)
+    mv = pmatch("Signal(Q_n, name=Q_x)", vo.ctor) or pmatch("Signal(Q_n)", vo.ctor) if vo is not None else None
+    ctx.floor("C24", "storage arrays", len(arrays), 2, comp.site)
+    ok_sz = all(it == pat("range(self.entries_number)") for _, it in arrays) and mv is not None and lin_equal(mv["n"], pat("self.entries_number"))
+    ctx.check(ok_sz, "C24.storage-size", comp.site, "CAM.storage", found="; ".join(tstr(it) for _, it in arrays) + f"; valids: {tstr(vo.ctor) if vo is not None else '?'}",
+              required="address and data arrays hold entries_number registers each and valids has entries_number bits")
     encs = {}
     for s in ex.of(Submodule):
         o = ex.obj(s.value)
